@@ -335,6 +335,9 @@ def check(run):
     run_cases(run, worker, cases)
     from props import C12_sym
     guarded(run, C12_sym.prove)
+    # tree TDVP-PS / PS2: every local problem handed to the local propagator is the integrator's (call by contract at expm_krylov)
+    from props import C12_tdvp_sym
+    guarded(run, C12_tdvp_sym.prove)
     from props import C11_sym
     guarded(run, C11_sym.prove, only=("update",))      # TTNS.update_2site (tdvp_ps2) in kernel-stub mode, incl. the per-node limit probe
     run.rule = ("random trees with 2..4(5) nodes (shape enumeration, groupings, dummy nodes) x {spin+qn, electron-phonon} x 4 tree schemes x real/imaginary time x |H|t in "
